@@ -406,6 +406,58 @@ def fuzz_session(victim, index, kind, seed, kex=None, banner=None, pk=False):
     return events, info["type"], hung
 
 
+class _RacingDict(dict):
+    """Stands in for Transport.channel_events: a deletion attempted by a thread other than the transport thread first
+    lets the peer's held-back reply through and waits until the transport thread has handled it (the caller was
+    descheduled between its last look at the event and its clean-up)."""
+
+    def __init__(self, base, owner, before):
+        dict.__init__(self, base)
+        self._owner, self._before, self._fired = owner, before, False
+
+    def __delitem__(self, k):
+        if threading.current_thread() is not self._owner and not self._fired:
+            self._fired = True
+            self._before(k)
+        return dict.__delitem__(self, k)
+
+
+def reply_at_deadline_cases():
+    """open_channel(timeout) gives up exactly when the peer's answer (confirmation or refusal) arrives.
+    Returns [(label, exception or None, transport's saved exception)]."""
+    out = []
+    for verdict in ("confirm", "refuse", "late-nothing"):
+        from paramiko import OPEN_FAILED_ADMINISTRATIVELY_PROHIBITED, OPEN_SUCCEEDED
+
+        srv = lib_net.BasicServer()
+        srv.check_channel_request = (lambda kind, chanid, v=verdict:
+                                     OPEN_SUCCEEDED if v != "refuse" else OPEN_FAILED_ADMINISTRATIVELY_PROHIBITED)
+        tc, ts, sc, ss, srv = lib_net.make_pair(server_iface=srv)
+        try:
+            sc.hold()  # the client does not see the server's answer yet
+
+            def before(chanid, tc=tc, sc=sc, verdict=verdict):
+                if verdict != "late-nothing":
+                    sc.release()
+                    lib_net.wait_until(lambda: chanid not in dict.keys(tc.channel_events) or not tc.is_active(), 2.0)
+
+            tc.channel_events = _RacingDict(tc.channel_events, tc, before)
+            err = None
+            try:
+                ch = tc.open_session(timeout=0.4)
+                if verdict != "late-nothing":
+                    err = None
+            except BaseException as e:  # noqa
+                err = e
+            sc.release()
+            lib_net.wait_until(lambda: False, 0.3)
+            out.append((verdict, err, tc.get_exception() if not tc.is_active() else None))
+        finally:
+            tc.close()
+            ts.close()
+    return out
+
+
 def gss_cases():
     """GSS-API authentication with a stub mechanism whose calls fail on peer-supplied tokens (no GSS library is
     installed; the stub's failure class stands for the library's GSSException).  Returns [(victim, where, exc)]."""
@@ -541,6 +593,16 @@ def run(ctx):
             ctx.fail("gss-library-error-surfaced:%s:%s" % (victim, where),
                      {"victim": victim, "api": where, "scenario": "gssapi-with-mic, mechanism fails on the peer's token"},
                      "%s handed the application %r" % (where, e))
+
+    # ---- (a'') a channel open that gives up exactly when the peer's answer arrives
+    for label, err, saved in reply_at_deadline_cases():
+        ctx.case(("reply-at-deadline", label, type(err).__name__), True)
+        ctx.dist("reply-at-deadline:" + (classify(err) if err is not None else "returned"))
+        for where, e in (("open_session", err), ("get_exception", saved)):
+            if e is not None and not isinstance(e, (_SSHE, EOFError, OSError)):
+                ctx.fail("internal-class-surfaced:open_channel-reply-at-deadline:%s" % where,
+                         {"scenario": "open_session(timeout) gives up while the peer's answer (%s) is being handled" % label},
+                         "%s handed the application %r" % (where, e))
 
     # ---- (b) structured fuzz
     n_idx = 14
